@@ -597,7 +597,7 @@ class PolicyGen:
         return out
 
     DEFECTS = ["default_unnamed", "no_groups", "unknown_name", "unknown_cond_name", "dup_name", "cond_uncond",
-               "argidx", "badop", "empty_conds", "argidx_and_badop"]
+               "argidx", "badop", "empty_conds", "argidx_and_badop", "bad_tail_of_extended"]
 
     def bpos(self, n, lo=0):
         """a position in lo..n: half of the time one of the boundary positions (start, end, powers of two and their neighbours)"""
@@ -646,8 +646,9 @@ class PolicyGen:
                 # a long list: the duplicated name sits at a boundary position of it
                 extra = [n for n in names_all if n not in g["names"] and all(w["name"] != n for w in g["nwc"])]
                 g["names"] += rng.sample(extra, min(len(extra), rng.choice([60, 64, 65, 70, 130, 260]) - len(g["names"])))
-            nm = g["names"][self.bpos(len(g["names"]) - 1)]
-            g["names"].insert(self.bpos(len(g["names"])), nm)
+            L = len(g["names"])
+            nm = g["names"][rng.choice([i for i in (63, 64, 65, 127, 128, 255, 256, L - 1, 0) if i < L]) if L > 64 and rng.random() < 0.7 else self.bpos(L - 1)]
+            g["names"].insert(rng.choice([len(g["names"]), self.bpos(len(g["names"]))]), nm)
         elif defect == "cond_uncond":
             if not g["names"]:
                 cand = [n for n in names_all if all(w["name"] != n for w in g["nwc"])]
@@ -655,7 +656,8 @@ class PolicyGen:
             if len(g["names"]) < 70 and rng.random() < 0.25:
                 extra = [n for n in names_all if n not in g["names"] and all(w["name"] != n for w in g["nwc"])]
                 g["names"] += rng.sample(extra, min(len(extra), rng.choice([60, 64, 65, 70, 130, 260]) - len(g["names"])))
-            nm = g["names"][self.bpos(len(g["names"]) - 1)]
+            L = len(g["names"])
+            nm = g["names"][rng.choice([i for i in (63, 64, 65, 127, 128, 255, 256, L - 1, 0) if i < L]) if L > 64 and rng.random() < 0.7 else self.bpos(L - 1)]
             g["nwc"].insert(self.bpos(len(g["nwc"])), dict(name=nm, conds=[self.cond()]))
         elif defect in ("argidx", "badop", "argidx_and_badop"):
             if not g["nwc"]:
@@ -667,6 +669,16 @@ class PolicyGen:
                 # a long list: the defective condition sits behind several valid ones
                 w["conds"] += [self.cond() for _ in range(rng.choice([5, 6, 7, 8, 15, 16, 31, 64]))]
             w["conds"].insert(self.bpos(len(w["conds"])), self.cond(bad={"argidx": "argidx", "badop": "op"}.get(defect, "both")))
+        elif defect == "bad_tail_of_extended":
+            # a valid list, and right behind it the same list with ONE more condition that is defective (a longer window of
+            # the same array: same first element, same prefix)
+            if not g["nwc"]:
+                cand = [n for n in names_all if n not in g["names"]]
+                g["nwc"].append(dict(name=rng.choice(cand), conds=[self.cond() for _ in range(rng.randint(1, 3))]))
+            i = rng.randrange(len(g["nwc"]))
+            w = g["nwc"][i]
+            tail = [self.cond() for _ in range(rng.randint(0, 2))] + [self.cond(bad=rng.choice(["argidx", "op", "both"]))]
+            g["nwc"].insert(i + 1, dict(name=w["name"], conds=list(w["conds"]) + tail))
         elif defect == "empty_conds":
             cand = [n for n in names_all if n not in g["names"]]
             g["nwc"].insert(rng.randint(0, len(g["nwc"])), dict(name=rng.choice(cand), conds=[]))
